@@ -167,6 +167,11 @@ pub fn relabel_with<'a, H: HashFunction, D: SetDataset>(
                 "RDFC-1.0 does not support literal as predicate".to_string(),
             ));
         }
+        if quad.s().is_literal() || quad.g().is_some_and(|gn| gn.is_literal()) {
+            return Err(C14nError::Unsupported(
+                "RDFC-1.0 does not support literal as subject or graph name".to_string(),
+            ));
+        }
         for component in iter_spog(quad.spog()) {
             if component.is_triple() || component.is_variable() {
                 return Err(C14nError::Unsupported(
